@@ -346,7 +346,17 @@ def classify (st : State) (sp : Store) (tn : Taints) (op : Op) (exp got : Resp) 
   match op, exp, got with
   | _, _, .panic => (6, "fs:suffix-range-huge-panics")
   -- buckets
-  | .deleteBucket _, .err .BucketNotEmpty, .ok => (5, "fs:delete-nonempty-bucket")
+  | .deleteBucket b, .err .BucketNotEmpty, .ok =>
+    -- the backend's bucket holds no file where the judging store still holds keys: the two diverged at an earlier step (after a
+    -- re-synchronisation the store holds keys in the backend's spelling, and a later request spelled otherwise — an open
+    -- deviation, `fs:key-normalised` — acts on another key there). A backend that removes a bucket which holds files differs
+    -- from the MODEL, and is named `unexpected:fs:delete-nonempty-bucket` by that comparison.
+    let modelEmpty : Bool := match bucketDir b with
+      | some bd => match st.tree bd with
+        | some t => t.files.isEmpty
+        | none => true
+      | none => true
+    if modelEmpty then shapeOr (5, "fs:key-normalised") else (5, "fs:delete-nonempty-bucket")
   -- put
   | .putObject .., .err .NoSuchBucket, _ => (5, "fs:put-into-missing-bucket")
   | .putObject b k .., _, .err .InternalError => (5, internalClass st sp op b k)
@@ -378,8 +388,8 @@ def classify (st : State) (sp : Store) (tn : Taints) (op : Op) (exp got : Resp) 
   | .deleteObjects .., .err .NoSuchBucket, .deleted _ => (2, "fs:delete-objects-in-missing-bucket")
   | .deleteObjects .., .deleted _, .deleted _ => shapeOr (2, "fs:delete-objects-omits-missing-keys")
   | .deleteObjects _ ks, _, .err .InternalError =>
-    if ks.eraseDups.length ≠ ks.length then (5, "fs:delete-objects-duplicate-key")
-    else shapeOr generic
+    -- a key that names a directory of the backend (an open deviation) explains the failure before a repeated key does
+    shapeOr (if ks.eraseDups.length ≠ ks.length then (5, "fs:delete-objects-duplicate-key") else generic)
   | .deleteObjects .., _, _ => shapeOr generic
   -- copy
   | .copyObject .., .err .InvalidRequest, .copied _ => (6, "fs:copy-onto-itself-destroys-object")
